@@ -246,6 +246,23 @@ func c02dur(w c02wait) time.Duration {
 	return c02long
 }
 
+// c02answerAll answers every pending task request, one at a time at quiescence.
+func c02answerAll(in *eng.Inst, rng *rec.Rng, q time.Duration) {
+	for steps := 0; steps < 40; steps++ {
+		if !in.Quiesce(q) {
+			in.Note("obs noquiesce")
+			return
+		}
+		p := in.Pending()
+		if len(p) == 0 {
+			return
+		}
+		if !in.AnswerOK(p[rng.Intn(len(p))], nil) {
+			return
+		}
+	}
+}
+
 func c02run(out *rec.Out, c c02case, rng *rec.Rng, tier string, stats map[string]int) {
 	g := c02graph(c.shape, c.n)
 	out.Begin("c02", c.shape, c.n, c.scen, c.histString(), c.perturb)
@@ -301,40 +318,93 @@ func c02run(out *rec.Out, c c02case, rng *rec.Rng, tier string, stats map[string
 		}
 	}
 	const q = 4 * time.Second
+	// Enforced schedules are recorded as `op hold <point>` / `op release <point>` around `op startall`: a goroutine that
+	// reaches a held point parks there until the release (internal/verifhook + harness/internal/sched).
+	hold := func(pt string) <-chan struct{} {
+		in.Op("hold %s", pt)
+		return ctl.Hold("process.startwith." + pt)
+	}
+	release := func(pt string) {
+		in.Op("release %s traces=%d", pt, in.NTraces())
+		ctl.Release("process.startwith." + pt)
+	}
 	switch c.scen {
 	case "missed":
-		// hold StartWith between Trigger and the creation of the monitor until the start event's traces have
-		// been broadcast (quiescence), then let it go on
-		arr := ctl.Hold("process.startwith.after_trigger")
-		in.Op("startall hold=after_trigger")
+		// hold StartWith right after Trigger until the start event's traces have been broadcast (quiescence)
+		arr := hold("after_trigger")
+		in.Op("startall")
 		startAll()
 		if !sched.WaitArrived(arr, q) {
 			in.Note("obs hold after_trigger notreached")
 		}
 		in.Quiesce(q)
-		in.Op("release after_trigger traces=%d", in.NTraces())
-		ctl.Release("process.startwith.after_trigger")
+		release("after_trigger")
 	case "stall2", "slow2":
-		// first StartWith runs freely up to after_monitor; the second one is held before its Trigger (slow2) or
-		// right after it (stall2) until the instance is quiescent
-		a1 := ctl.Hold("process.startwith.after_monitor")
-		in.Op("startall hold=after_monitor")
+		// Aim: the SECOND StartWith is parked before (slow2) / right after (stall2) its Trigger until the instance is
+		// quiescent, while the first StartWith has run to its end without being delayed between its Trigger and its
+		// monitor. Which points the first StartWith passes first depends on the layout of StartWith (monitor created
+		// after or before Trigger), so the layout is probed: both after_monitor and before_trigger are held and the
+		// point reached first tells it. Every release happens at quiescence, so the recorded order of traces and
+		// driver actions is the real one.
+		arrived := func(a <-chan struct{}, what string) bool {
+			ok := sched.WaitArrived(a, q)
+			if !ok {
+				in.Note("obs hold %s notreached", what)
+			}
+			in.Quiesce(q)
+			return ok
+		}
+		aM := hold("after_monitor")
+		aB := hold("before_trigger")
+		in.Op("startall")
 		startAll()
-		if !sched.WaitArrived(a1, q) {
-			in.Note("obs hold after_monitor notreached")
-		}
-		pt := "process.startwith.after_trigger"
-		if c.scen == "slow2" {
-			pt = "process.startwith.before_trigger"
-		}
-		a2 := ctl.Hold(pt)
-		ctl.Release("process.startwith.after_monitor")
-		if !sched.WaitArrived(a2, q) {
-			in.Note("obs hold second notreached")
+		monitorFirst := false
+		select {
+		case <-aM:
+			monitorFirst = true
+		case <-aB:
+		case <-time.After(q):
+			in.Note("obs hold first notreached")
 		}
 		in.Quiesce(q)
-		in.Op("release second %s traces=%d", pt[len("process.startwith."):], in.NTraces())
-		ctl.Release(pt)
+		reached := true
+		if !monitorFirst {
+			// Trigger first: let the first StartWith run to after_monitor (its last point)
+			release("before_trigger")
+			reached = arrived(aM, "after_monitor")
+			pt := "after_trigger"
+			if c.scen == "slow2" {
+				pt = "before_trigger"
+			}
+			a2 := hold(pt)
+			release("after_monitor")
+			reached = arrived(a2, pt) && reached
+			if c.scen == "slow2" && reached {
+				c02answerAll(in, rng, q)
+			}
+			release(pt)
+		} else {
+			// monitor first: the first StartWith goes on to before_trigger, Trigger, after_trigger
+			release("after_monitor")
+			reached = arrived(aB, "before_trigger")
+			aT := hold("after_trigger")
+			release("before_trigger")
+			reached = arrived(aT, "after_trigger") && reached
+			aB2 := hold("before_trigger")
+			release("after_trigger")
+			reached = arrived(aB2, "before_trigger (second StartWith)") && reached
+			if c.scen == "slow2" {
+				if reached {
+					c02answerAll(in, rng, q)
+				}
+				release("before_trigger")
+			} else {
+				aT2 := hold("after_trigger")
+				release("before_trigger")
+				arrived(aT2, "after_trigger (second StartWith)")
+				release("after_trigger")
+			}
+		}
 	default:
 		in.Op("startall")
 		startAll()
